@@ -270,7 +270,94 @@ def renumber_rt(prog):
 
 def entries(prog):
     """Functions that can be evaluated from the driver: zero-parameter plain or data functions."""
-    return [fn for fn in sorted(prog["funcs"]) if prog["funcs"][fn]["kind"] in ("plain", "data")]
+    return [fn for fn in sorted(prog["funcs"]) if prog["funcs"][fn]["kind"] in ("plain", "data")
+            and not prog["funcs"][fn].get("ill")]
+
+
+def _ill_fn(prog, name, mod, kind="plain", params=None, path=None):
+    f = {"mod": mod, "kind": kind, "params": params or [], "ver": 1, "ret": "tuple", "pad": 0, "body": [],
+         "comment": 0, "end": True, "ill": True}
+    if path:
+        f["path"] = path
+    prog["funcs"][name] = f
+    prog["order"].append(name)
+    return f
+
+
+def add_ill(prog, rng, kind, tag, avoid=()):
+    """Adds an ill-formed entry point (never referenced by the well-formed functions) and returns
+    (entry name, expected DDS error code). All choices are materialised in the IR."""
+    mod = rng.choice(prog["mods"])
+    pre = f"b{tag}"
+    entry = pre + "e"
+    ekind = rng.choice(["plain", "plain", "data"])
+    e = _ill_fn(prog, entry, mod, ekind, path=f"/ill{tag}/entry" if ekind == "data" else None)
+    depth = rng.choice([0, 0, 1, 2])
+    # chain of helpers between the entry and the offending construct
+    cur = entry
+    for d in range(depth):
+        hn = f"{pre}h{d}"
+        hk = rng.choice(["plain", "data"])
+        _ill_fn(prog, hn, mod, hk, path=f"/ill{tag}/h{d}" if hk == "data" else None)
+        prog["funcs"][cur]["body"].append({"t": "call", "f": hn, "form": "direct"})
+        cur = hn
+    host = prog["funcs"][cur]
+    if kind == "overlap":
+        base = f"/ov{tag}"
+        segs = ["a", "b", "ab", "c"]
+        s0 = rng.choice(segs)
+        s1 = rng.choice(segs)
+        deep = rng.choice([1, 1, 2])
+        short = f"{base}/{s0}"
+        long_ = short + "/" + "/".join([s1] * deep)
+        extras = [f"{base}/{x}" for x in segs if x != s0] + [f"/ow{tag}", f"{base}{s0}", f"{base}/{s0}{s1}"]
+        rng.shuffle(extras)
+        paths = [short, long_] + extras[: rng.choice([0, 1, 2])]
+        rng.shuffle(paths)
+        sub = None
+        for k, pth in enumerate(paths):
+            ln = f"{pre}l{k}"
+            _ill_fn(prog, ln, mod, "target", params=[["a", NODEFAULT_]])
+            where = host
+            r = rng.random()
+            if r < 0.3 and sub is None:
+                # one further nesting level: a plain helper called from the host holds this keep
+                sn = f"{pre}s"
+                sub = _ill_fn(prog, sn, mod, "plain")
+                host["body"].append({"t": "call", "f": sn, "form": "direct"})
+                where = sub
+            elif r < 0.5 and sub is not None:
+                where = sub
+            where["body"].append({"t": "keep", "path": pth, "f": ln, "args": [{"k": "lit", "v": k}]})
+        return entry, "OVERLAPPING_PATH"
+    if kind == "cycle":
+        n = rng.choice([1, 2, 2, 3, 4])
+        names = [f"{pre}c{k}" for k in range(n)]
+        for nm in names:
+            _ill_fn(prog, nm, mod, "target", params=[["a", 0]])
+        host["body"].append({"t": "call", "f": names[0], "form": "direct"})
+        for k, nm in enumerate(names):
+            nxt = names[(k + 1) % n]
+            ek = rng.choice(["call", "call", "keep", "ho"])
+            if ek == "ho" and n == 1 and "cycle:self-ho" in avoid:
+                ek = "call"
+            if ek == "call":
+                prog["funcs"][nm]["body"].append({"t": "call", "f": nxt, "form": "direct"})
+            elif ek == "ho":
+                prog["funcs"][nm]["body"].append({"t": "ho", "f": nxt, "form": "direct"})
+            else:
+                prog["funcs"][nm]["body"].append({"t": "keep", "path": f"/cy{tag}/{k}", "f": nxt,
+                                                  "args": [{"k": "lit", "v": 1}]})
+        return entry, "CIRCULAR_CALL"
+    if kind == "evalineval":
+        gn = f"{pre}g"
+        _ill_fn(prog, gn, mod, "plain")
+        host["body"].append({"t": "eval", "f": gn, "form": "direct"})
+        return entry, "EVAL_IN_EVAL"
+    raise ValueError(kind)
+
+
+NODEFAULT_ = ir.NODEFAULT
 
 
 def reachable(prog, root):
